@@ -267,6 +267,7 @@ package check
 //@   noframe
 //@   props C08 C13 C03
 //@   requires wfe(e) && ctx != nil && mapper != nil && 0 <= i && i < len(results)
+//@   requires captured-read-only-mapper: mapper != nil && mapper.ReadOnly
 //@   ensures[C03] slot-inv: results[i].Err != nil ==> results[i].Membership != checkgroup.IsMember
 
 // ghost record of the engine's last decision, set by CheckIsMember
